@@ -159,6 +159,7 @@ def main(run):
             ph.force_constants = arr.copy()
             dms[layout] = ph.dynamical_matrix
         c["dms"] = dms
+        c["info"] = info
         T = U.dm_tables(dms["full"])
         c["T"] = T
         # table certificates evaluated by the Lean model + numerical hypotheses of the Fourier theorems
@@ -223,6 +224,27 @@ def main(run):
                         from phonopy.harmonic.dynamical_matrix import run_dynamical_matrix_solver_c
                         impl[("batch", variant, ci, layout)] = np.array(run_dynamical_matrix_solver_c(
                             dm, np.array([x[1] for x in c["qs"]], dtype="double")))
+                        # the same q-points handed over in other array layouts / types (the values are what counts, not the
+                        # memory layout of the argument): Fortran order, transposed view, column slice of a (n,4) q+weight array,
+                        # every second row of a longer array, nested lists  (seeded change r7-c02: strided views reached the kernel)
+                        qc = np.array([x[1] for x in c["qs"]], dtype="double")
+                        qw = np.zeros((len(qc), 4)); qw[:, :3] = qc; qw[:, 3] = 7.25
+                        q2x = np.full((2 * len(qc), 3), 0.3125); q2x[::2] = qc
+                        for lname, qarg in (("fortran-ordered", np.asfortranarray(qc)), ("transposed view", np.ascontiguousarray(qc.T).T),
+                                            ("column slice of (n,4)", qw[:, :3]), ("row slice [::2]", q2x[::2]), ("nested lists", qc.tolist())):
+                            run.count("oracle-qpoint-array-layout", section="oracle")
+                            try:
+                                alt = np.array(run_dynamical_matrix_solver_c(dm, qarg))
+                            except Exception as exc:  # noqa: BLE001
+                                run.violation("run_dynamical_matrix_solver_c", "qpoint-array-layout", "q-points given as %s are rejected: %r" % (lname, exc),
+                                              dict(c["info"], layout=layout, build=variant, q=qc.tolist(), array=lname))
+                                continue
+                            ref_ = impl[("batch", variant, ci, layout)]
+                            if alt.shape != ref_.shape or np.abs(alt - ref_).max() > 1e-12 * max(1.0, np.abs(ref_).max()):
+                                run.violation("run_dynamical_matrix_solver_c", "qpoint-array-layout",
+                                              "the same q-points given as %s give other dynamical matrices than given as a C-contiguous array (max diff %.3g)" % (
+                                                  lname, np.abs(alt - ref_).max() if alt.shape == ref_.shape else float("nan")),
+                                              dict(c["info"], layout=layout, build=variant, q=qc.tolist(), array=lname))
                     for uo in (0, 1):
                         kd = U.kernel_direct(c["T"], layout == "compact", arr, qq, uo)
                         if kd is None:
